@@ -61,29 +61,39 @@ theorem agg_perm_invariant {O : Oracles} {q : AggStmt} {rows₁ rows₂ : List E
 theorem keyed_rows_permute (O : Oracles) (q : AggStmt) {rows₁ rows₂ : List Env} (h : rows₁.Perm rows₂) :
     OptPerm (keyedRows O q rows₁) (keyedRows O q rows₂) := keyedRows_perm O q h
 
+/-- **the known deviation classes of C04 (D10, D15) do not depend on line order** for the statements of C15: D15 looks at
+the first value of ARRAY_AGG in a group (an order-sensitive aggregate, excluded here), D10 at whether some aggregate of a
+group has an argument value at all / a non-NULL one — a property of the multiset of the group's rows. No hypothesis on
+keys, values or sums. (With ARRAY_AGG it is false: `deviation_class_of_array_agg_depends_on_order` below.) -/
+theorem deviation_class_ignores_line_order {O : Oracles} {q : AggStmt}
+    (hOI : ∀ kind ∈ slotKinds q, orderInsensitive kind = true) {rows₁ rows₂ : List Env} (h : rows₁.Perm rows₂) :
+    deviationClass O q rows₁ = deviationClass O q rows₂ :=
+  deviationClass_perm hOI h
+
 /-- **the engine's table ignores line order**: the engine run (every row through `execute_update`, then `execute_result`
 + LIMIT) over an input and over any permutation of it both succeed and show the same table, whenever the
-specification fixes the outcome of the first and both inputs are outside the known deviation classes of C04 (D10, D15). -/
+specification fixes the outcome of the first and the first input is outside the known deviation classes of C04 (D10, D15)
+— the permuted input is then outside them as well (`deviation_class_ignores_line_order`). -/
 theorem engine_perm_invariant {O : Oracles} {q : AggStmt} (hwf : StmtWF q) {rows₁ rows₂ : List Env} (h : rows₁.Perm rows₂)
     (hsafe : ∀ keyed, keyedRows O q rows₁ = some keyed → PermSafe O q keyed)
     {t : List (List Value)} (hspec : table O q rows₁ = some t)
-    (hc₁ : deviationClass O q rows₁ = "") (hc₂ : deviationClass O q rows₂ = "") :
+    (hc₁ : deviationClass O q rows₁ = "") :
     (aggRun O q rows₁ {}).bind (fun st => finalResult O q { agg := st }) =
       (aggRun O q rows₂ {}).bind (fun st => finalResult O q { agg := st }) := by
+  have hc₂ : deviationClass O q rows₂ = "" := by rw [deviationClass_perm_of_safe h hsafe hspec]; exact hc₁
   rw [engine_refines_spec_total hwf rows₁ hspec hc₁]
   rw [engine_refines_spec_total hwf rows₂ (by rw [← table_perm h hsafe]; exact hspec) hc₂]
 
 /-- **the executed batch run ignores line order** (`runBatch` = the `FileExecutor` loop the driver runs): for an aggregate
 statement without join and two files whose lines are permutations of each other, the printed table and the line count
-are the same — whenever the specification answers for the first file with an empty deviation class (C04), `PermSafe` holds
-for its admitted rows, and the second file is outside D10/D15 as well -/
+are the same — whenever the specification answers for the first file with an empty deviation class (C04) and `PermSafe`
+holds for its admitted rows -/
 theorem batch_run_ignores_line_order {O : Oracles} {qy : Query} {q : AggStmt} (hq : qy.stmt = .aggregate q) (hwf : StmtWF q)
     (hj : qy.join = none) (joined : List FileLine) {l₁ l₂ : List FileLine} (hp : l₁.Perm l₂)
     (hsafe : ∀ keyed, keyedRows O q (envsOf qy.table l₁) = some keyed → PermSafe O q keyed)
-    {ro : RunOut} (h₁ : Spec.Agg.batch O qy q joined [l₁] = some (ro, ""))
-    (hc₂ : deviationClass O q (envsOf qy.table l₂) = "") :
+    {ro : RunOut} (h₁ : Spec.Agg.batch O qy q joined [l₁] = some (ro, "")) :
     runBatch O qy joined [l₁] none = runBatch O qy joined [l₂] none :=
-  runBatch_perm_invariant hq hwf hj joined hp hsafe h₁ hc₂
+  runBatch_perm_invariant hq hwf hj joined hp hsafe h₁
 
 /-! ### input split: the result over `r₁ ++ r₂` is the key-wise combination of the results over `r₁` and `r₂` -/
 
@@ -317,6 +327,22 @@ def exSumMinInt : AggStmt :=
   { exSumMin with items := [exSumMin.items[0]!, exSumMin.items[1]!, exSumMin.items[2]!, exSumMin.items[5]!, exSumMin.items[6]!] }
 example : table {} exSumMinInt exRows = some [[.text [97], .int 3, .int 2, .int (-1), .int 3], [.text [98], .int 2, .int 9, .int 2, .int 7]] ∧
     table {} exSumMinInt exRows.reverse = table {} exSumMinInt exRows := ⟨rfl, rfl⟩
+
+/-- `SELECT ARRAY_AGG(v) FROM t` -/
+def exArr : AggStmt :=
+  { items := [{ name := "array_agg0", kind := .arrayAgg (.column "v"), transform := none }], filter := none, groupBy := none,
+    having := none, havingAggs := [], havingKeys := [], havingVisit := [], limit := none, distinct := false }
+/-- **why `deviation_class_ignores_line_order` excludes ARRAY_AGG**: for `SELECT ARRAY_AGG(v)` the rows (NULL, 1) fall into
+D15 (the first value is NULL) and the same rows in the order (1, NULL) do not -/
+theorem deviation_class_of_array_agg_depends_on_order :
+    [rowKV 97 .null, rowKV 97 (.int 1)].Perm [rowKV 97 (.int 1), rowKV 97 .null] ∧
+    deviationClass {} exArr [rowKV 97 .null, rowKV 97 (.int 1)] = "D15:array_agg-first-value-null" ∧
+    deviationClass {} exArr [rowKV 97 (.int 1), rowKV 97 .null] = "" :=
+  ⟨List.Perm.swap _ _ _, by decide +kernel, by decide +kernel⟩
+/-- the deviation class of the example rows (`SELECT k, COUNT(*), SUM(v), … GROUP BY k`) is empty, and so it is for every
+permutation of them -/
+example (rows₂ : List Env) (h : exRows.Perm rows₂) : deviationClass {} exPct rows₂ = "" := by
+  rw [← deviation_class_ignores_line_order (by decide) h]; decide +kernel
 
 /-- the hypotheses of the input split (`SplitSafe` of `agg_concat_merge_all`) hold for INT arguments -/
 example (v₁ v₂ : List Value) (h₁ : ∀ v ∈ nonNull v₁, ∃ i, v = .int i) (h₂ : ∀ v ∈ nonNull v₂, ∃ i, v = .int i) :
